@@ -49,7 +49,7 @@ func (lam *Lambda) Call(s *Scope, args List, depth int) (result Object) {
 		restSym Symbol
 	)
 Aux:
-	for i, ad := range lam.Doc.Args {
+	for _, ad := range lam.Doc.Args {
 		if len(args) <= ai {
 			break
 		}
@@ -89,12 +89,9 @@ Aux:
 			for ai < len(args) {
 				a := args[ai]
 				if sym, ok := a.(Symbol); ok && 0 < len(sym) && sym[0] == ':' {
-					sym = sym[1:]
-					for j := i + 1; j < len(lam.Doc.Args); j++ {
-						if string(sym) == lam.Doc.Args[j].Name {
-							mode = keyMode
-							break Mode
-						}
+					if lam.isKeyParam(string(sym[1:])) {
+						mode = keyMode
+						break Mode
 					}
 				}
 				ai++
@@ -112,7 +109,9 @@ Aux:
 					if len(args) <= ai {
 						panic(fmt.Sprintf("Missing value for key :%s.", sym))
 					}
-					ss.Let(sym, args[ai])
+					if lam.isKeyParam(string(sym)) {
+						ss.Let(sym, args[ai])
+					}
 					ai++
 					continue
 				}
@@ -188,6 +187,23 @@ Aux:
 		}
 	}
 	return lam.BoundCall(ss, depth)
+}
+
+// isKeyParam returns true if name is one of the &key parameters. Other
+// keywords in a call are allowed but do not bind anything.
+func (lam *Lambda) isKeyParam(name string) bool {
+	inKeys := false
+	for _, ad := range lam.Doc.Args {
+		switch {
+		case strings.EqualFold(ad.Name, AmpKey):
+			inKeys = true
+		case strings.EqualFold(ad.Name, AmpAux):
+			inKeys = false
+		case inKeys && strings.EqualFold(ad.Name, name):
+			return true
+		}
+	}
+	return false
 }
 
 // boundHere returns true if the variable was bound in the scope itself and
